@@ -141,7 +141,17 @@ def run_static(cell, rec, seed):
         rec.cell(["static", Dw, Dy, N, ok], N > 1)
         ns_mu = np.max(np.abs(mu_ref)) + np.max(np.abs(tp.mu)) + 1e-3
         ns_S = np.max(np.abs(tp.Sigma))
-        ns_l = 1.0 + abs(lml_ref) + N * Dy * orc.LN2PI
+        # the log evidence is assembled from natural parameters: ln Z(L_post, nu_post) and the
+        # log-constants of prior and likelihood factors, all of which carry large cancelling
+        # quadratic terms when scales are extreme: absolute companion of those terms
+        L0 = np.abs(orc.inv(tp.Sigma[0]))
+        comp = 0.5 * np.abs(tp.mu[0]) @ L0 @ np.abs(tp.mu[0])
+        for Mi, bi, Si, yi in zip(Ms, bs, Ss, ys):
+            Li = np.abs(orc.inv(Si))
+            r_ = np.abs(yi) + np.abs(bi) + np.abs(Mi) @ (np.abs(mu_ref) + np.abs(tp.mu[0]))
+            comp += 0.5 * r_ @ Li @ r_ + 0.5 * abs(orc.slogdet(Si))
+        comp += 0.5 * abs(orc.slogdet(tp.Sigma[0])) + 0.5 * abs(orc.slogdet(S_ref))
+        ns_l = 1.0 + abs(lml_ref) + N * Dy * orc.LN2PI + comp
         history = {"orders": [], "posteriors": []}
         # ---- route (a): sequential, identity order + random permutations
         orders = [list(range(N))] + [list(rng.permutation(N)) for _ in range(2 if N > 1 else 0)]
